@@ -20,6 +20,8 @@ const (
 type orderState struct {
 	mode     int
 	script   []uint32
+	seed     uint64 // when != 0: words beyond the script come from splitmix(seed, position)
+	mask     uint32 // when != 0: only sites whose hash bit is set are permuted
 	pos      int
 	permuted map[string]int // site -> number of loops that got a non-identity order
 	loops    int            // loops with >=2 keys seen in script mode
@@ -40,6 +42,31 @@ func SetOrderNative() { ord = orderState{mode: OrderNative} }
 // everywhere except the loop that matters".
 func SetOrderScript(script []uint32) {
 	ord = orderState{mode: OrderScript, script: script, permuted: map[string]int{}, ptrKeyed: map[string]int{}}
+}
+
+// SetOrderPlan is SetOrderScript plus a seed that supplies pseudo-random words once the
+// explicit script is used up (seed 0 = identity beyond the script) and a 32-bit site
+// mask: when non-zero only loops whose site hashes to a set bit are permuted, so a
+// shrunk case names few loops.
+func SetOrderPlan(script []uint32, seed uint64, mask uint32) {
+	ord = orderState{mode: OrderScript, script: script, seed: seed, mask: mask, permuted: map[string]int{}, ptrKeyed: map[string]int{}}
+}
+
+// SiteBit is the mask bit of a site.
+func SiteBit(site string) uint32 {
+	h := uint32(2166136261)
+	for i := 0; i < len(site); i++ {
+		h ^= uint32(site[i])
+		h *= 16777619
+	}
+	return 1 << (h % 32)
+}
+
+func mix64(x uint64) uint64 {
+	x += 0x9e3779b97f4a7c15
+	x = (x ^ (x >> 30)) * 0xbf58476d1ce4e5b9
+	x = (x ^ (x >> 27)) * 0x94d049bb133111eb
+	return x ^ (x >> 31)
 }
 
 // OrderReport returns, for script mode, the sites whose loops received a non-identity
@@ -89,12 +116,20 @@ func getOrderMode() int { return ord.mode }
 
 func permute[K any](keys []K, site string) {
 	ord.loops++
+	if ord.mask != 0 && ord.mask&SiteBit(site) == 0 {
+		return
+	}
 	moved := false
 	for i := len(keys) - 1; i > 0; i-- {
-		if ord.pos >= len(ord.script) {
+		var w uint32
+		if ord.pos < len(ord.script) {
+			w = ord.script[ord.pos]
+		} else if ord.seed != 0 {
+			w = uint32(mix64(ord.seed+uint64(ord.pos)*0x9e3779b97f4a7c15) >> 16)
+		} else {
 			break
 		}
-		j := int(ord.script[ord.pos] % uint32(i+1))
+		j := int(w % uint32(i+1))
 		ord.pos++
 		if j != i {
 			keys[i], keys[j] = keys[j], keys[i]
